@@ -73,6 +73,7 @@ def run(chk, tier):
             # (state a cube builds up lazily during its first evaluation must survive an interrupt too)
             pr = ref.twin() if rnd.random() < 0.5 else ref
             pr.callback_style = rnd.choice(["function", "function", "falsy-object", "bool-false-object"])
+            pr.callback_place = rnd.choice(["instance", "instance", "instance", "class"])
             tr, outs, funcs = pr.evaluate(mode, P=P or 1, faults=fs, sched_seed=core.SEED * 977 + tid,
                                           switch_prob=rnd.choice([0.02, 0.2]), hard=hard)
             tid += 1
@@ -83,7 +84,7 @@ def run(chk, tier):
             tr2, outs2, _ = pr.evaluate(mode, P=P or 1, faults=(), sched_seed=tid, funcs=funcs, switch_prob=0.05)
             tr["secondok"] = tr2["outcome"] == "returned" and outs2 is not None and pl.same_bits(outs2, fresh)
             traces.append(tr)
-            meta[tid] = {"cube": kind, "aggregates": names, "mode": mode, "P": P, "tasks": T, "faults": sorted(fs), "hard_interrupt": hard, "fresh_cube_object": pr is not ref, "callback": pr.callback_style,
+            meta[tid] = {"cube": kind, "aggregates": names, "mode": mode, "P": P, "tasks": T, "faults": sorted(fs), "hard_interrupt": hard, "fresh_cube_object": pr is not ref, "callback": pr.callback_style, "callback_installed_on": pr.callback_place,
                          "case": case.describe(), "exc": getattr(pr, "last_exc", None)}
     c16.judge_pool(chk, traces, meta, OWN)
     c03.judge(chk, env.rec, OWN)
